@@ -411,7 +411,7 @@ func c15Run(r *vkit.Run) {
 		fn()
 		r.NonTrivial()
 	})
-	r.Note("bounds", fmt.Sprintf("0..%d containers x 3 entry-count patterns x 3 timestamp patterns (distinct interleaved, all equal, reversed) x 17 message offsets x up to 3 stream rotations x 8 option combinations; plus all results of 2 streams x <=2 entries over 2 timestamps x 17 messages (1/%d lattice on the second stream) in 4 stream-identity variants; every byte value 0..255 alone, doubled and inside a message; end to end (argv -> fake daemon -> printed bytes): 1-3 containers x 3 timestamp patterns x 6 message offsets x 20 spellings of the --timestamp/-t, --container/-c, --color flags incl. their defaults, and four kinds of result without entries", maxN, step))
+	r.Note("bounds", fmt.Sprintf("0..%d containers x 3 entry-count patterns x 3 timestamp patterns (distinct interleaved, all equal, reversed) x 17 message offsets x up to 3 stream rotations x 8 option combinations; plus all results of 2 streams x <=2 entries over 2 timestamps x 17 messages (1/%d lattice on the second stream) in 4 stream-identity variants; every byte value 0..255 alone, doubled and inside a message; end to end (argv -> fake daemon -> printed bytes): 1-3 containers x 3 timestamp patterns x 8 message offsets x 20 spellings of the --timestamp/-t, --container/-c, --color flags incl. their defaults, and four kinds of result without entries", maxN, step))
 }
 
 // ---- end to end: the command itself, from argv over a fake daemon to the printed bytes ----
@@ -474,7 +474,7 @@ func c15E2ECheck(r *vkit.Run, in c15E2EInput) {
 
 func c15E2ERun(r *vkit.Run, one func(fn func())) {
 	base := int64(1700000000) * 1e9
-	msgs := []string{"m", "m\n", "m\r\n", "", "a\nb", " m "}
+	msgs := []string{"m", "m\n", "m\r\n", "", "a\nb", " m ", "\xffm\xfe", "100%\n\n"}
 	type flagForm struct {
 		args       []string
 		ts, ct, co bool
